@@ -14,6 +14,7 @@
 import MM.Lemmas.C18
 import MM.Gen.C18
 import MM.Gen.LockC18
+import MM.Gen.LockC18m
 
 namespace MM.C18
 variable {α : Type}
@@ -68,6 +69,35 @@ theorem C18_lock_state_rmw_one_region :
 
 /-- `CloseWrite` is a single critical section (one lock acquisition). -/
 theorem C18_lock_closewrite_once : Gen.LockC18.acquisitions.lookup "Stream.CloseWrite" = some 1 := by decide
+
+
+def mgrLock (m callee : String) : List String :=
+  (Gen.LockC18m.othercalls.filter (fun c => c.1 == m && c.2.1 == callee)).map (·.2.2)
+
+/-- The manager never calls into a stream while it holds the table lock `m.mu`: `PushData` can block
+    (full read buffer) and `Close` / callbacks can take time; holding the table lock there would stall
+    every other stream.  The model's frame handler holds no manager-wide lock while a push is pending
+    (the per-stream LTS steps of different streams are independent, `C18_close_targets_one`). -/
+theorem C18_lock_manager_calls_streams_unlocked :
+    mgrLock "Manager.HandleStreamData" "PushData" = ["none"] ∧
+    mgrLock "Manager.HandleStreamData" "HandleRemoteFinWrite" = ["none"] ∧
+    mgrLock "Manager.RemoveStream" "Close" = ["none"] ∧
+    mgrLock "Manager.HandleStreamReset" "Close" = ["none"] ∧
+    (Gen.LockC18m.accesses.all (fun a => !(a.2.1 == "onStreamData" || a.2.1 == "onStreamClose") || a.2.2.2 == "none")) = true := by
+  decide
+
+/-- **A blocked push is released by a close.**  With the read buffer full the handler's push step is not
+    enabled (`PushData` blocks); once the stream's `closed` channel is closed the push aborts with
+    `io.EOF` (`hAbort`) — the frame loop cannot stay stuck on a stream that is being torn down. -/
+theorem C18_blocked_push_released_by_close {ff : Bool} (x : Sys α) (p : α) (t : List (Micro α))
+    (ht : x.todo = .pushEnq p :: t) (hfull : cap ≤ x.s.buf.length) :
+    step ff x .hStep = none ∧
+      (x.s.closed = true → ∃ y, step ff x .hAbort = some y ∧ y.todo = [] ∧ y.dropped = true) := by
+  constructor
+  · simp [step, stepMicro, ht, Nat.not_lt.mpr hfull]
+  · intro hc
+    refine ⟨{ x with todo := [], dropped := true }, ?_, rfl, rfl⟩
+    simp [step, stepAbort, ht, hc]
 
 /-- **Data before EOF.**  In every reachable state of the repaired code: if `Read` has returned
     end-of-stream while the stream had not been closed/reset (`closed = false` at that moment), then
